@@ -566,6 +566,9 @@ func C16(tier string) {
 		want := mt.Rows[btIdx[k]]
 		mBacktrack++
 		if got != string(want[1]) {
+			if alone := c16LibMarkersBacktrack([]string{btMs[k]})[0]; alone == string(want[1]) {
+				continue // right on its own: the answer depends on the other markers of the batch, which the flat phase reports with its batch as context
+			}
 			run.Fail(core.Join("marker-backtrack", btMs[k], want), fmt.Sprintf("marker %q on a holder re-pinned after backtracking (requested with extra x): guarded edge followed = %s, packaging evaluates %c", btMs[k], got, want[1]))
 		}
 	}
